@@ -204,6 +204,16 @@ class _Volt:
 _V = type('Voltage', (), {})()
 
 
+def sample_pair(fam, table, label_id, code):
+    t = [x for x in all_tables() if x.family == fam and x.name == table][0]
+    kind, codes, lab = [p for p in find_pairs(t) if p[2].id_ == label_id][0]
+    resp = t.response(bytes(t.nbytes))
+    n = refdec.size_of(codes[0])
+    poke(resp, t.byte_pos(codes[0]), code.to_bytes(max(n, 2), 'big')[-max(n, 2):] if n != 1 else bytes([code]))
+    d, err = map2(resp, codes + (lab,))
+    return dict(table=f'{fam}.{table}', code_register=hex(code), result={k: str(v) for k, v in (d or {}).items()}, error=err)
+
+
 def job_formulas(j):
     family, seed = j
     world.reset()
@@ -319,8 +329,9 @@ def run(tier, seed, rep):
                     'sums/products/formulas: full product of boundary grids over the registers involved; each '
                     'evaluation is a distinct register assignment',
                pairs_found=npairs, exhaustive=full,
-               samples=[dict(pair='battery_error_h/battery_error_l -> battery_error', high=1, low=1),
-                        dict(formula='ET ppv = ppv1+ppv2+ppv3+ppv4 (0xFFFFFFFF = no value = 0)')])
+               samples=[sample_pair('ET', 'all_sensors', 'work_mode_label', 2),
+                        sample_pair('ET', 'all_sensors', 'errors', 0x0040),
+                        sample_pair('DT', 'all_sensors', 'safety_country_label', 3)])
     return dict(level='exploration', coverage=cov,
                 assumptions=['totals are compared with the parts as reported in the same result (None = 0)',
                              'products may differ from v*i by at most 0.5 (rounding mode at exact ties is not prescribed)',
